@@ -705,6 +705,12 @@ func gen(r *vlib.R, n int, tier string, emit func(string)) {
 	if tier == "thorough" {
 		slow = 6
 	}
+	emit(fmt.Sprintf("l3 slowval delay=%d ttl=%d", vlib.Pick(r, []int{1500, 1800}), vlib.Pick(r, []int{2, 3, 5})))
+	emit(fmt.Sprintf("l3 inflight delay=%d", vlib.Pick(r, []int{1600, 1800})))
+	if tier == "thorough" {
+		emit("l3 slowval delay=2000 ttl=2")
+		emit("l3 inflight delay=1700")
+	}
 	for i := 0; i < slow; i++ {
 		emit(fmt.Sprintf("l3 slowref sec=%d delay=%d act=%s", r.Intn(2), vlib.Pick(r, []int{1200, 1300, 1500}), vlib.Pick(r, []string{"withdraw", "repoint"})))
 	}
